@@ -67,6 +67,7 @@ func main() {
 		}
 		os.Exit(code)
 	}
+	rep.CleanReplays()
 	switch id {
 	case "C14":
 		ev, err = stagea.CheckC14(*tier, seed, rep)
